@@ -1,6 +1,7 @@
 import PW.Proofs.SpecLemmas
 import PW.Proofs.MixedRadix
 import PW.Proofs.Grid
+import PW.Proofs.Channels
 /-!
 # C07 — every stored state is a valid normalised quantum state of its claimed form
 
@@ -13,6 +14,7 @@ level tag = representation, members report the block's level.
 -/
 namespace PW.Props.C07
 open PW PW.Spec
+open scoped ComplexOrder Matrix
 
 variable {R : Type} [CommRing R] [StarRing R]
 
@@ -39,6 +41,18 @@ theorem stored_size (ds : List Nat) (t : Tensor R) : (toFlat ds t).size = ds.pro
 theorem stored_faithful (ds : List Nat) (t : Tensor R) (idx : List Nat) (h : InRange ds idx) :
     ofFlat ds (toFlat ds t) idx = t idx := ofFlat_toFlat ds t idx h
 
+/-- any operation on the addressed part keeps the joint state positive semidefinite (Mathlib
+matrices over ℂ) -/
+theorem operation_keeps_positivity {a b : Type} [Fintype a] [Fintype b] [DecidableEq a] [DecidableEq b]
+    (O : Matrix a a ℂ) (ρ : Matrix (a × b) (a × b) ℂ) (hρ : ρ.PosSemidef) :
+    (PW.Channels.emb O * ρ * (PW.Channels.emb O)ᴴ).PosSemidef := PW.Channels.operation_posSemidef O ρ hρ
+
+/-- a unitary operation keeps the trace -/
+theorem unitary_keeps_trace {a b : Type} [Fintype a] [Fintype b] [DecidableEq a] [DecidableEq b]
+    (U : Matrix a a ℂ) (hU : Uᴴ * U = 1) (ρ : Matrix (a × b) (a × b) ℂ) :
+    Matrix.trace (PW.Channels.emb U * ρ * (PW.Channels.emb U)ᴴ) = Matrix.trace ρ :=
+  PW.Channels.unitary_trace_preserving U hU ρ
+
 end PW.Props.C07
 
 #print axioms PW.Props.C07.new_subsystem_keeps_hermitian
@@ -47,3 +61,5 @@ end PW.Props.C07
 #print axioms PW.Props.C07.renormalised_trace
 #print axioms PW.Props.C07.stored_size
 #print axioms PW.Props.C07.stored_faithful
+#print axioms PW.Props.C07.operation_keeps_positivity
+#print axioms PW.Props.C07.unitary_keeps_trace
